@@ -156,7 +156,7 @@ func c09State(w *wctx, p *position.Position, r *refchess.Pos) {
 		t := eng.TupleOfEng(m)
 		rep := map[string]interface{}{"move": m.StringUci()}
 		run.AddTransitions(1)
-		var gc, pre, post bool
+		var gc, pre, post, hcAfter bool
 		msg, pan := vl.Guard(func() { gc = p.GivesCheck(m) })
 		if pan {
 			run.Violate("givescheck-panic", "GivesCheck panicked: "+msg, w.replayOf(r, rep))
@@ -165,6 +165,7 @@ func c09State(w *wctx, p *position.Position, r *refchess.Pos) {
 			pre = p.IsLegalMove(m)
 			p.DoMove(m)
 			post = p.WasLegalMove()
+			hcAfter = p.HasCheck() // the in-check test on the position as reached by this move (cache set or cleared by DoMove)
 			p.UndoMove()
 		})
 		if pan {
@@ -192,6 +193,9 @@ func c09State(w *wctx, p *position.Position, r *refchess.Pos) {
 			if gc != wantGc {
 				run.Violate("givescheck:"+kindNames[t.Kind], fmt.Sprintf("GivesCheck=%v but opponent in check after the move=%v", gc, wantGc), w.replayOf(r, rep))
 			}
+			if hcAfter != wantGc {
+				run.Violate("hascheck-after-move:"+kindNames[t.Kind], fmt.Sprintf("HasCheck()=%v on the position reached by the move but the king is attacked=%v", hcAfter, wantGc), w.replayOf(r, rep))
+			}
 		}
 	}
 }
@@ -205,7 +209,7 @@ func c09(tier string, args []string) int {
 	fams := []family{
 		famP3(space.P3Opt{Quadrant: true}, "P3(extra piece in a1-d4)"),
 		famPCastle(0),
-		famPEP([]int8{space.R}, false, "PEP(extra=rook)"),
+		famPEP([]int8{space.Q}, false, "PEP(extra=queen)"),
 		famPEPOwn([]int8{space.R}, "PEP(own rook)"),
 	}
 	if tier == "thorough" {
